@@ -54,14 +54,14 @@ func cat(ls ...[]string) []string {
 }
 
 var modelledBy = map[string][]string{
-	"C01": cat(replyPath, servicePath, []string{"call:Call.IsOneway", "call:Call.WantsMore", "call:Call.WantsUpgrade"}),
-	"C02": cat(replyPath, readerPath, []string{"connection:Connection.Send"}),
+	"C01": cat(replyPath, servicePath, readerPath, []string{"call:Call.IsOneway", "call:Call.WantsMore", "call:Call.WantsUpgrade"}),
+	"C02": cat(replyPath, readerPath, servicePath, []string{"connection:Connection.Send", "connection:Connection.Call"}),
 	"C03": cat(clientPath, replyPath, []string{"call:Call.GetParameters", "bridge:type PipeCon", "bridge:PipeCon.Read", "bridge:PipeCon.Write", "newbridge:NewBridgeWithStderr", "bridge:NewBridge", "bridge:PipeCon.Close", "bridge:PipeCon.LocalAddr", "bridge:PipeCon.RemoteAddr", "bridge:PipeCon.SetDeadline", "bridge:PipeCon.SetReadDeadline", "bridge:PipeCon.SetWriteDeadline", "bridge:var _", "connection:type Connection", "connection:Connection.Close", "connection:NewConnection", "conn:Conn.Read", "conn:Conn.ReadBytes", "conn:Conn.Write", "conn:NewConn", "conn:type Conn"}),
-	"C04": cat(servicePath, []string{"service:type Service", "service:type dispatcher"}),
+	"C04": cat(servicePath, []string{"service:type Service", "service:type dispatcher", "service:Service.RegisterInterface", "service:NewService"}),
 	"C05": idlAll, "C06": idlAll, "C09": idlAll,
 	"C07": cat(genAll, []string{"gen:generateFile", "gen:main"}),
 	"C08": cat(genAll, clientPath, replyPath, []string{"call:Call.IsOneway", "call:Call.WantsMore", "call:Call.WantsUpgrade", "call:Call.GetParameters", "connection:Connection.Upgrade"}),
-	"C10": cat(servicePath, []string{"call:Call.sendMessage", "conn:Conn.ReadBytes"}),
+	"C10": cat(servicePath, readerPath, lifecycleAll, []string{"call:Call.sendMessage", "conn:Conn.Close"}),
 	"C11": cat(clientPath, []string{"conn:Conn.ReadBytes", "conn:Conn.Write", "connection:type Connection", "connection:Connection.Close", "connection:type ReadWriterContext"}),
 	"C12": cat(replyPath, clientPath, []string{"orgvarlinkservice:InterfaceNotFound.Error", "orgvarlinkservice:InvalidParameter.Error", "orgvarlinkservice:MethodNotFound.Error", "orgvarlinkservice:MethodNotImplemented.Error"}),
 	// (everything that writes `running` / `conncounter`, which the registration guard reads, belongs to C13 too)
@@ -73,14 +73,14 @@ var modelledBy = map[string][]string{
 		"connection:Connection.GetInfo", "connection:Connection.GetInterfaceDescription",
 		"resolver:Resolver.GetInfo", "resolver:Resolver.Resolve", "resolver:NewResolver", "resolver:Resolver.Close", "resolver:const ResolverAddress", "resolver:type Resolver",
 		"orgvarlinkservice:orgvarlinkserviceInterface.VarlinkDispatch", "orgvarlinkservice:orgvarlinkserviceInterface.VarlinkGetName", "orgvarlinkservice:orgvarlinkserviceNew", "orgvarlinkservice:type orgvarlinkserviceInterface"}),
-	"C14": lifecycleAll, "C15": cat(lifecycleAll, []string{"service:ServiceTimeoutError.Error", "service:type ServiceTimeoutError"}),
+	"C14": cat(lifecycleAll, []string{"conn:Conn.ReadBytes", "conn:Conn.Close", "conn:NewConn"}), "C15": cat(lifecycleAll, []string{"conn:Conn.ReadBytes", "conn:Conn.Close", "conn:NewConn", "service:ServiceTimeoutError.Error", "service:type ServiceTimeoutError"}),
 	"C16": cat(lifecycleAll, readerPath, []string{"service:Service.HandleMessage", "service:Service.getInfo", "service:Service.getInterfaceDescription"}),
 	"C17": cat(readerPath, []string{"conn:var aLongTimeAgo", "bridge:PipeCon.SetReadDeadline", "bridge:PipeCon.SetWriteDeadline", "service:Service.handleConnection",
 		"connection:Connection.Send", "connection:Connection.Call", "connection:Connection.Upgrade", "conn:Conn.Close", "conn:Conn.NetConn", "conn:type ioret", "conn:type rret", "bridge:PipeCon.Close", "bridge:type PipeCon", "newbridge:NewBridgeWithStderr"}),
-	"C18": cat(readerPath, []string{"connection:Connection.Upgrade", "call:type Call", "connection:type ReadWriterContext", "connection:type GetNetConn", "conn:Conn.NetConn", "connection:type Connection"}),
-	"C19": {"service:Service.parseAddress", "service:Service.Bind", "service:Service.bind", "service:Service.setListener", "service:Service.teardown",
-		"connection:NewConnection", "listen_1.11:listen"},
-	"C20": {"socketactivation:activationListener", "service:Service.setListener"},
+	"C18": cat(readerPath, []string{"service:Service.HandleMessage", "service:Service.handleConnection", "connection:Connection.Upgrade", "call:type Call", "connection:type ReadWriterContext", "connection:type GetNetConn", "conn:Conn.NetConn", "connection:type Connection"}),
+	"C19": cat(lifecycleAll, []string{"service:Service.parseAddress", "service:Service.Bind", "service:Service.bind", "service:Service.setListener", "service:Service.teardown",
+		"connection:NewConnection", "listen_1.11:listen"}),
+	"C20": {"socketactivation:activationListener", "service:Service.setListener", "service:Service.bind", "service:Service.Bind"},
 }
 
 func declName(fd *ast.FuncDecl) string {
